@@ -75,6 +75,24 @@ def gen_jt_cliques(rnd, attrs, max_width=3):
     return cliques
 
 
+def gen_windows(rnd, attrs):
+    """sliding windows of width w with step 1..w-1: separators nested up to w-1 deep (deep region graphs)."""
+    pool = list(attrs)
+    rnd.shuffle(pool)
+    w = min(len(pool), rnd.choice([2, 3, 4, 4]))
+    step = rnd.choice([1, 1, max(1, w - 1)])
+    cliques, i = [], 0
+    while True:
+        cliques.append(pool[i:i + w])
+        if i + w >= len(pool):
+            break
+        i += step
+    for c in cliques:
+        rnd.shuffle(c)
+    rnd.shuffle(cliques)
+    return cliques
+
+
 def gen_tree_factor_graph(rnd, attrs, max_width=3):
     """cliques whose factor graph (variables + cliques) is a forest: each new clique shares exactly one variable."""
     pool = list(attrs)
@@ -103,15 +121,18 @@ def gen_tree_factor_graph(rnd, attrs, max_width=3):
 
 
 def gen_case(rnd, prop, tier):
-    n = rnd.choice([2, 3, 3, 4, 4, 5, 5, 6])
+    n = rnd.choice([2, 3, 3, 4, 4, 5, 5, 6]) if prop != 'C16' else rnd.choice([2, 3, 3, 4, 4, 5, 5, 6, 7, 8])
     attrs = gen.gen_names(rnd, n)
-    sizes = gen.gen_sizes(rnd, n, max_size=3 if n >= 5 else 4, max_joint=2048, p_one=0.05)
+    sizes = gen.gen_sizes(rnd, n, max_size=2 if n >= 7 else (3 if n >= 5 else 4), max_joint=2048, p_one=0.05)
     if prop == 'C16':
         oracle = rnd.choice(['gbp', 'gbp', 'loopy'])
         r = rnd.random()
         if r < 0.6:
             structure = 'acyclic'
-            cliques = gen_jt_cliques(rnd, attrs) if oracle == 'gbp' else gen_tree_factor_graph(rnd, attrs)
+            if oracle == 'gbp':
+                cliques = gen_windows(rnd, attrs) if rnd.random() < (0.6 if n >= 6 else 0.3) else gen_jt_cliques(rnd, attrs, max_width=rnd.choice([3, 3, 4]))
+            else:
+                cliques = gen_tree_factor_graph(rnd, attrs)
         else:
             structure = 'arbitrary'
             cliques, _ = gen.gen_cliques(rnd, attrs, max_width=3)
@@ -199,6 +220,11 @@ def permute_ties(order, seed):
         out += block
         i = j
     return out
+
+
+def _depth(obj, r):
+    ch = obj.children.get(r, [])
+    return 0 if not ch else 1 + max(_depth(obj, c) for c in ch)
 
 
 def run_c16(mbi, case):
@@ -290,6 +316,10 @@ def run_c16(mbi, case):
             break
     ix = {a: i for i, a in enumerate(attrs)}
     hyper = sorted(sorted(ix[a] for a in c) for c in cliques)
+    if kind == 'gbp':
+        depth = 1 + max([0] + [sum(1 for s in obj.cliques if set(s) < set(r0)) and _depth(obj, r0) for r0 in obj.cliques])
+        if depth >= 4:
+            probes['region-graph-depth>=4'] = 1
     measure = [kind, case['structure'], hyper, hist, tie]
     nontrivial = len(cliques) >= 2 and (len(case['calls']) >= 2 or tie)
     return dict(violations=viol[:1], measure=measure, nontrivial=nontrivial, faults=faults, probes=probes, steps=steps,
